@@ -10,6 +10,7 @@
 mod rng;
 mod sx;
 mod ty;
+mod val;
 mod ops;
 
 use std::io::{BufRead, Write};
